@@ -51,6 +51,10 @@ class Lock:
 def ensure_makefile():
     mk = os.path.join(COQ, "Makefile")
     proj = os.path.join(COQ, "_CoqProject")
+    vs = sorted(os.path.relpath(p, COQ) for p in glob.glob(os.path.join(COQ, "*.v")) + glob.glob(os.path.join(COQ, "gen", "*.v")))
+    text = "-R . SS\n" + "\n".join(vs) + "\n"
+    if not os.path.exists(proj) or open(proj).read() != text:
+        open(proj, "w").write(text)
     if not os.path.exists(mk) or os.path.getmtime(mk) < os.path.getmtime(proj):
         sh(["coq_makefile", "-f", "_CoqProject", "-o", "Makefile"], 120, cwd=COQ)
 
